@@ -1,6 +1,6 @@
 #!/usr/bin/env python3
 """Prepare a scratch worktree and a prompt file for a seeding sub-agent.
-usage: mkseedprompt.py <Cxx> <round>   -> /tmp/wt-<Cxx>r<round>, /tmp/agent_prompt_<Cxx>r<round>.txt"""
+usage: mkseedprompt.py <Cxx> <round> [<flavour>] [--strict]  -> /tmp/wt-<Cxx>r<round>, /tmp/agent_prompt_<Cxx>r<round>.txt"""
 import json, os, subprocess, sys, glob
 pid, rnd = sys.argv[1], sys.argv[2]
 wt = f"/tmp/wt-{pid}r{rnd}"
@@ -19,6 +19,10 @@ for d in sorted(glob.glob(f'/verif/seeded/{pid}-*')):
     except Exception:
         pass
 extra = ""
+STRICT = "--strict" in sys.argv   # round 9 on: the agent gets the property text and its worktree only, nothing that comes out of /verif
+if STRICT:
+    sys.argv.remove("--strict")
+    prior = []
 if prior:
     extra = ("\n\nEARLIER CHANGES OF THIS KIND ALREADY EXIST - produce something DIFFERENT (another file, another mechanism, another part of the "
              "property's statement, other constructs / inputs needed to manifest):\n" + "\n".join(prior) + "\n")
